@@ -79,6 +79,8 @@ macro_rules! block_enc {
         let iv = $rng.bytes($ivl);
         let nblk = $rng.below(3);
         let data = $rng.bytes(nblk * $bs);
+        let nmore = $rng.below(3);
+        let more = $rng.bytes(nmore * $bs);
         let obj = <$ty as KeyIvInit>::new(key.as_slice().try_into().unwrap(), iv.as_slice().try_into().unwrap());
         let k: [u8; 16] = key.as_slice().try_into().unwrap();
         scan($name, obj, |o| {
@@ -95,6 +97,12 @@ macro_rules! block_enc {
                 let mut ks = st.clone();
                 toy_enc(&k, &mut ks);
                 secrets.push(("next-keystream-block", ks));
+            }
+            // … and once more after further blocks: the earlier state must not survive either
+            let mut d2 = more.clone();
+            for b in d2.chunks_exact_mut($bs) {
+                o.$call(b.try_into().unwrap());
+                secrets.push(("exported-state", o.iv_state().to_vec()));
             }
             secrets
         });
@@ -196,11 +204,25 @@ macro_rules! buf_obj {
         let iv = $rng.bytes($bs);
         let n = $rng.below(3 * $bs);
         let obj = <$ty as KeyIvInit>::new(key.as_slice().try_into().unwrap(), iv.as_slice().try_into().unwrap());
+        let steps = $rng.below(3);
+        let lens: Vec<usize> = (0..steps)
+            .map(|_| match $rng.below(4) { 0 => $bs * $rng.below(3), 1 => 1 + $rng.below(8), _ => $rng.below(3 * $bs) })
+            .collect();
         scan($name, obj, |o| {
+            // a history: data, export, more data, export, …; every state the object ever exported is a secret it must not
+            // keep a copy of after the drop (a cache filled by `get_state`, a look-ahead block, …)
+            let mut secrets = vec![];
             let mut d = vec![0x33u8; n];
             o.$call(&mut d);
             let (st, _pos) = o.get_state();
-            vec![("exported-state", st.to_vec())]
+            secrets.push(("exported-state", st.to_vec()));
+            for l in lens {
+                let mut d = vec![0x33u8; l];
+                o.$call(&mut d);
+                let (st, _pos) = o.get_state();
+                secrets.push(("exported-state", st.to_vec()));
+            }
+            secrets
         });
     }};
 }
